@@ -68,7 +68,12 @@ type PodCfg struct {
 	Owner    string `json:"owner"`    // none | replicaset | daemonset | node | statefulset
 	Critical bool   `json:"critical"` // priority class system-cluster-critical
 	Dnd      string `json:"dnd"`      // "-" | "true" | duration string | invalid string
-	Tol      bool   `json:"tol"`      // tolerates karpenter.sh/disrupted:NoSchedule
+	Tol      bool   `json:"tol"`      // tolerates karpenter.sh/disrupted:NoSchedule (toleration form: TolKind, default key + Exists)
+	// TolKind: the toleration the pod carries. Tolerating forms: key-exists | key-equal | wildcard ({operator: Exists}) |
+	// wildcard-effect ({operator: Exists, effect: NoSchedule}); NOT tolerating: wrong-effect (key, NoExecute only) |
+	// wrong-key | "" (none, unless Tol). Whether it tolerates is decided by the abstraction with Kubernetes' own
+	// Toleration.ToleratesTaint, never by Karpenter's helper.
+	TolKind string `json:"tolKind"`
 	TGPS     int    `json:"tgps"`     // terminationGracePeriodSeconds, <0 = unset
 	Pdb      string `json:"pdb"`      // "-" | ok | blocked | multi
 	Phase    string `json:"phase"`    // "" = Running
@@ -142,6 +147,7 @@ type sim struct {
 	views map[string]*corev1.Pod // informer copies handed to stale eviction-queue reconciles
 	ncView *v1.NodeClaim         // informer copy of the NodeClaim: refreshed by up-to-date reconciles, reused by stale ones
 	nView  *corev1.Node
+	lastDl string // the termination timestamp the annotation carried before it was removed (clock steps stay relative to it)
 	permOn bool // the permanent faults of the scenario are in force (switched on by the PermOn step)
 }
 
@@ -326,8 +332,23 @@ func (s *sim) createPod(pc PodCfg) {
 	if pc.Dnd != "" && pc.Dnd != "-" {
 		o.Annotations[v1.DoNotDisruptAnnotationKey] = pc.Dnd
 	}
-	if pc.Tol {
+	kind := pc.TolKind
+	if kind == "" && pc.Tol {
+		kind = "key-exists"
+	}
+	switch kind {
+	case "key-exists":
 		o.Tolerations = []corev1.Toleration{{Key: v1.DisruptedTaintKey, Operator: corev1.TolerationOpExists, Effect: corev1.TaintEffectNoSchedule}}
+	case "key-equal":
+		o.Tolerations = []corev1.Toleration{{Key: v1.DisruptedTaintKey, Operator: corev1.TolerationOpEqual, Value: v1.DisruptedNoScheduleTaint.Value}}
+	case "wildcard":
+		o.Tolerations = []corev1.Toleration{{Operator: corev1.TolerationOpExists}}
+	case "wildcard-effect":
+		o.Tolerations = []corev1.Toleration{{Operator: corev1.TolerationOpExists, Effect: corev1.TaintEffectNoSchedule}}
+	case "wrong-effect":
+		o.Tolerations = []corev1.Toleration{{Key: v1.DisruptedTaintKey, Operator: corev1.TolerationOpExists, Effect: corev1.TaintEffectNoExecute}}
+	case "wrong-key":
+		o.Tolerations = []corev1.Toleration{{Key: "example.com/other", Operator: corev1.TolerationOpExists}}
 	}
 	p := world.Pod(o)
 	now := metav1.NewTime(s.w.Clock.Now())
@@ -571,6 +592,16 @@ func (s *sim) step(st Step) error {
 		}) {
 			s.skip(st.A, "no-claim")
 		}
+	case "DeadlineRemove": // the termination timestamp annotation disappears (the next drain pass has no deadline)
+		nc := claim()
+		if !w.EnvMutate(nc, "DeadlineRemoved", func() {
+			if ts, ok := nc.Annotations[v1.NodeClaimTerminationTimestampAnnotationKey]; ok {
+				s.lastDl = ts
+			}
+			delete(nc.Annotations, v1.NodeClaimTerminationTimestampAnnotationKey)
+		}) {
+			s.skip(st.A, "no-claim")
+		}
 	case "DeadlineRel": // ... to D seconds after the NodeClaim's deletion timestamp
 		nc := claim()
 		if !w.Get(nc) || nc.DeletionTimestamp.IsZero() {
@@ -583,6 +614,9 @@ func (s *sim) step(st Step) error {
 		ts, ok := "", false
 		if w.Get(nc) {
 			ts, ok = nc.Annotations[v1.NodeClaimTerminationTimestampAnnotationKey]
+		}
+		if !ok && s.lastDl != "" {
+			ts, ok = s.lastDl, true
 		}
 		t, err := time.Parse(time.RFC3339, ts)
 		if !ok || err != nil {
